@@ -506,13 +506,26 @@ Definition initial_setup (h : hdr) : M setup :=
   ret (mksetup mh mv ws hs (div_round_up (f_height f) (mv * du))
                ((s_n (h_scan h) <? f_nc f) || f_prog f)).
 
+(* default_decompress_parms (jdapimin.c): the only effect kept is WARNMS1(JWRN_ADOBE_XFORM) *)
+Definition default_parms_warn (h : hdr) : M unit :=
+  let nc := f_nc (h_frame h) in
+  let sawj := nthd (h_jfif h) 0 0 in
+  let sawa := nthd (h_adobe h) 0 0 in
+  let tr := nthd (h_adobe h) 1 0 in
+  if nc =? 3 then
+    if negb (sawj =? 0) then ret tt
+    else if negb (sawa =? 0) && negb (tr =? 0) && negb (tr =? 1) then warn else ret tt
+  else if nc =? 4 then
+    if negb (sawa =? 0) && negb (tr =? 0) && negb (tr =? 2) then warn else ret tt
+  else ret tt.
+
 (* ------------------------------------------------- consume_markers (headers) *)
 Inductive outcome := HeaderOK (h : hdr) (su : setup) | TablesOnly (h : hdr).
 
 Definition read_header : M outcome := fun s =>
   (r <- read_markers (marker_fuel s) hdr0 ;;
    match r with
-   | ReachedSOS h => su <- initial_setup h ;; ret (HeaderOK h su)
+   | ReachedSOS h => su <- initial_setup h ;; default_parms_warn h ;;; ret (HeaderOK h su)
    | ReachedEOI h => if saw_SOF h then fail E_SOF_NO_SOS else ret (TablesOnly h)
    | Continue h => fail E_OUT_OF_FUEL
    end) s.
@@ -625,7 +638,24 @@ Fixpoint huff_blocks (member : list Z) (blkn : Z) (h : hdr) : M unit :=
       huff_blocks t (blkn + 1) h
   end.
 
-Definition start_pass_huff (h : hdr) (si : scaninfo) : M used :=
+(* jinit_huff_decoder: std_huff_tables() fills the EMPTY dc/ac slots 0 and 1
+   (add_huff_table keeps a table the datastream defined) *)
+Definition pad256 (v : list Z) : list Z := v ++ repeat 0 (256 - length v).
+Definition std_fill1 (dc ac : list (option htbl)) (e : bool * Z * list Z * list Z) :=
+  match e with
+  | (isdc, slot, bits, vals) =>
+      if isdc then
+        (match nthd dc slot None with None => updz slot (Some (bits, pad256 vals)) dc | Some _ => dc end, ac)
+      else
+        (dc, match nthd ac slot None with None => updz slot (Some (bits, pad256 vals)) ac | Some _ => ac end)
+  end.
+Definition std_fill (h : hdr) : hdr :=
+  let '(dc, ac) := fold_left (fun p e => std_fill1 (fst p) (snd p) e) std_huff (dc_tbls h, ac_tbls h) in
+  mkhdr (saw_SOI h) (saw_SOF h) (h_frame h) (h_scan h) dc ac (q_tbls h)
+        (ar_L h) (ar_U h) (ar_K h) (h_ri h) (h_jfif h) (h_adobe h) (h_nscans h).
+
+Definition start_pass_huff (h0 : hdr) (si : scaninfo) : M used :=
+  let h := std_fill h0 in
   let sc := h_scan h in
   (if negb (s_Ss sc =? 0) || negb (s_Se sc =? L_DCTSIZE2 - 1) || negb (s_Ah sc =? 0) || negb (s_Al sc =? 0)
    then warn else ret tt) ;;;
